@@ -479,10 +479,12 @@ class _FragmentCompiler:
         emitter.append(f"def run():")
         with emitter.indent():
             emitter.append("pass")
-            for (signal, _) in lhs_masks.masks():
+            for (signal, mask) in lhs_masks.masks():
                 if not signal.reset_less:
+                    if signal.shape().signed and (mask & 1 << (len(signal) - 1)):
+                        mask |= -1 << len(signal)
                     signal_index = self.state.get_signal(signal)
-                    emitter.append(f"slots[{signal_index}].update({signal.init})")
+                    emitter.append(f"slots[{signal_index}].update({signal.init}, {mask})")
 
         exec_locals = {"slots": self.state.slots}
         exec(compile(emitter.flush(), "<string>", "exec"), exec_locals)
@@ -505,6 +507,9 @@ class _FragmentCompiler:
             domain_process = PyRTLProcess(is_comb=domain_name == "comb")
             lhs_masks = LHSMaskCollector()
             lhs_masks.visit_stmt(domain_stmts)
+            # The bits that are registers of this domain, as opposed to memory read port outputs.
+            reg_masks = LHSMaskCollector()
+            reg_masks.visit_stmt(domain_stmts)
 
             if isinstance(fragment, MemoryInstance):
                 for port in fragment._read_ports:
@@ -551,7 +556,9 @@ class _FragmentCompiler:
                     # An asynchronous reset takes effect as soon as `rst` rises, without a clock edge.
                     # This is done by a separate process, so that the clocked logic of the domain
                     # (statements, reset-less registers, memory ports) only ever runs at clock edges.
-                    processes.add(self.compile_async_reset(domain, lhs_masks))
+                    # It loads exactly the register bits driven from this domain, which is what the clocked
+                    # process does for them while `rst` is high, so the two never disagree.
+                    processes.add(self.compile_async_reset(domain, reg_masks))
 
                 for (signal, _) in lhs_masks.masks():
                     signal_index = self.state.get_signal(signal)
